@@ -242,6 +242,10 @@ func (e *Engine) verifyFunction(fn *ssa.Function, noMerge bool) *FuncReport {
 			ex.addObl(st2, "post", "ginv:"+gi.Name, g, gi.Clause.Text)
 		}
 		for _, c := range append(append([]Clause{}, ct.Ensures...), ifaceClauses...) {
+			if strings.HasPrefix(c.Label, "slow_") && !e.thorough {
+				// expensive clause (exact floating point): thorough tier only
+				continue
+			}
 			g, err := env.EvalBool(c.Expr)
 			if err != nil {
 				ex.fail(fmt.Sprintf("ensures %s %q: %v", c.Label, c.Text, err))
